@@ -21,6 +21,24 @@ CHECKS = {
             "model (explicit-state, stateless)"),
 }
 
+CHECKS["C02"] = (
+    "4/C02",
+    "Bounded-exhaustive exploration of the real solvers (Fortran Mie, "
+    "Multisphere one-sphere cluster with both interaction solvers and "
+    "default/tight options, pure-Python Mie series, layered Mie) over a "
+    "complete product alphabet: relative index x size parameter (1e-3..400) "
+    "x 4 option pairs x radial distances x 7 polar x 6 azimuthal angles x 4 "
+    "polarization angles; every index sequence of length 1-4 over a "
+    "3-letter alphabet for the layered equivalences.  Each execution is "
+    "compared with a textbook Bohren-Huffman series whose coefficients come "
+    "from a 60-digit mpmath table.",
+    "Trusted: mpmath Bessel functions, scipy spherical Bessel functions, "
+    "numpy.  Tolerances are >=30x above the floor measured on the unchanged "
+    "tree (recorded in the evidence); values between alphabet points are "
+    "not covered.",
+    "bounded-exhaustive input/configuration enumeration vs independent "
+    "reference model")
+
 NOT_YET = {}
 
 
